@@ -188,6 +188,10 @@ def run_graphs(ctx, cell):
     loaded = [x.value for x in log.value]
     for m in ("good", "other", "third", "shadow"):
         ctx.check(loaded.count(m) <= 1, key + ":module-body-ran-more-than-once[%s]" % m, detail)
+    # a failing (cyclic) module is not cached, but within ONE require its body starts at most once:
+    # the cycle is reported when it closes, not after the first module ran a second time
+    for m, starter in (("cyc_a", "require cyc_a"), ("cyc_b", "require cyc_a"), ("selfreq", "require selfreq")):
+        ctx.check(loaded.count(m) <= stmts.count(starter), key + ":cycle-re-entered-before-it-was-reported[%s]" % m, detail)
     new = set(it.environment.getLocalSymbols()) - before
     # exactly the requested names
     exp = set()
